@@ -88,8 +88,17 @@ def check_ds_answer(req, ans):
             yield ("render", render, "0"*lz + buf)
         if "P" in pfs:
             yield ("panic", "is_position_free panicked", "no panic")
-        if "P" in rfs[:5]:
-            yield ("panic", "is_range_free(a<b) panicked", "no panic")
+        if "P" in rfs[:5] or "P" in rfs[7:]:
+            yield ("panic", "is_range_free(a<b) panicked (queries: (0,1) (1,2) (3,5) (6,8) (2,9) | (0,MAX) (1,MAX) (MAX-1,MAX) (5,2^40)): %s" % rfs, "no panic")
+        if "P" in frees:
+            yield ("panic", "is_free panicked", "no panic")
+        # semantic content of the extreme queries: everything from position s upwards is free iff the digits there are zeros
+        if len(rfs) >= 11 and "P" not in rfs[7:]:
+            want = ["1" if set(buf) <= {"0"} else "0",
+                    "1" if set(buf[:-1]) <= {"0"} else "0",
+                    "1", "1" if set(buf[:-5]) <= {"0"} else "0"]
+            if list(rfs[7:11]) != want:
+                yield ("range-free-extreme", "is_range_free with huge end on %r: %s" % (buf, rfs[7:11]), "".join(want))
         if i > 0:
             op = ops[i - 1].split(":")
             kind = op[0]
@@ -952,7 +961,7 @@ def oracle_c06(ctx, focus):
         # float precision"): a multiplier on every scale word of the language, then a dense lower part
         import vocab as _vocab
         words = [w for w in _vocab.source_literals(lang) if w and " " not in w]
-        scales = [w for w in words if re.search(r"illi|ilj|ilh|^bilh|^bili", w)]
+        scales = [w for w in words if re.search(r"ill[i\u00f3o]|ilj|ilh|^bilh|^bili|liard", w)]
         dense = _spec_cases(ctx, "c06d" + lang, ["gen\tcard\t%s\t%d\t0" % (lang, x) for x in
                                                    (123401, 123407, 999999999999, 100000123403, 7000001, 90071992547, 123456789012)])
         mult = _spec_cases(ctx, "c06m" + lang, ["gen\tcard\t%s\t%d\t0" % (lang, x) for x in (9, 12, 90, 100, 900, 9007, 90000, 100000)])
@@ -1115,7 +1124,7 @@ def _f64(bits):
 
 def oracle_c09(ctx, focus):
     failures, n, distinct = [], 0, set()
-    chain = [float("-inf"), -1.0, 0.0, 0.5, 1.0, 5.0, 9.0, 10.0, 10.5, 1e9, float("inf")]
+    chain = [float("-inf"), -1.0, 0.0, 0.5, 1.0, 5.0, 9.0, 10.0, 10.5, 1e9, 1e19, 1.8446744073709552e19, 1e30, float("inf")]
     thrs = [t2nlib.thr_bits(x) for x in chain] + [t2nlib.thr_bits(float("nan"))]
     for li, lang in enumerate(LANGS):
         rng = SplitMix64(ctx.seed * 409 + li)
@@ -1143,6 +1152,16 @@ def oracle_c09(ctx, focus):
                     parts.append(rng.choice([" ", " ", " ", ", ", ". ", "; ", " . ", ": ", "! ", ".", " - "]))
                 parts.append(w.upper() if rng.chance(1, 10) else w)
             texts.append("".join(parts))
+        # huge numbers and ranks (multipliers stacked on scale words, cardinal and ordinal forms): isolated and in pairs —
+        # an ordinal is small below ANY threshold above its rank, however large (2^63, 2^64, 10^30 …)
+        import vocab as _vocab
+        lits = [w for w in _vocab.source_literals(lang) if w and " " not in w]
+        scales = [w for w in lits if re.search(r"ill[i\u00f3o]|ilj|ilh|^bilh|^bili|liard|thousand|tausend|duizend|^mil$|^mille$|^mila$", w)] or ["x"]
+        mults = [p_ for p_ in small_bank[:4]] + [p_ for p_ in bank if 1 < len(p_.split(" ")) < 4][:3]
+        for _ in range(60 if ctx.tier != "thorough" else 1500):
+            ph = rng.choice(mults) + " " + " ".join(rng.choice(scales) for _ in range(1 + rng.below(3)))
+            texts.append("%s %s %s" % (rng.choice(ordw), ph, rng.choice(ordw)))
+            texts.append("%s %s, %s %s" % (rng.choice(ordw), ph, rng.choice(small_bank), rng.choice(ordw)))
         reqs = []
         for t in texts:
             for th in thrs:
